@@ -90,6 +90,8 @@ def run(ctx):
             for o in dst[2]:
                 if o.kind == 'call' and o.key == 'std::path::Path::join':
                     searched |= {str(x.key).split('::')[-1] for x in call_arg_origins(fl, o.bb, 1) if x.kind == 'call' and str(x.key).startswith('std::iter::Iterator::')}
+            if not searched and chosen_by_bounded_search(fl, ct['args'][1]):
+                searched = {'bounded search with a fallback name'}
             if searched:
                 # `(0..).map(name).find(|c| free(c))`: the looks happen inside an iterator search that is not unfolded here
                 ctx.undecided('C02.R2', 'apply: the conflict-copy name is the result of an iterator search (%s): which scans it consults before accepting a name is not decided' % ', '.join(sorted(searched)))
